@@ -11,3 +11,44 @@ pub fn mk_assembler(bytes_read: u64) -> Assembler {
         end: bytes_read,
     }
 }
+
+const V62: u64 = 1 << 62;
+static DEFRAG_DATA: [u8; 8] = [0x10, 0x21, 0x32, 0x43, 0x54, 0x65, 0x76, 0x87];
+
+/// C01 (unordered reads yield non-overlapping chunks with the written contents): one iteration of the
+/// first loop of `Assembler::defragment` - `chunk.try_mark_defragment(frontier)` followed by
+/// `frontier' = chunk.offset + chunk.bytes.len()` - from an arbitrary buffered chunk of <= 8 bytes and an
+/// arbitrary frontier (end of the data kept so far).
+pub fn defragment_step(offset0: u64, len: usize, alloc: usize, defragmented: bool, frontier: u64) -> u32 {
+    if len == 0 || len > 8 || alloc < len || alloc > (1 << 20) || offset0 >= V62 || frontier >= V62 {
+        return 0;
+    }
+    let mut b = Buffer { offset: offset0, bytes: Bytes::from_static(&DEFRAG_DATA).slice(..len), allocation_size: alloc, defragmented };
+    b.try_mark_defragment(frontier);
+    let n = b.bytes.len();
+    let end0 = offset0 + len as u64;
+    // the frontier never moves backwards (data below it has already been kept from an earlier chunk)
+    assert!(b.offset + n as u64 >= frontier);
+    // documented: allocation_size is never less than bytes.len()
+    assert!(b.allocation_size >= n);
+    let mut w = 0;
+    if n == 0 {
+        // everything was below the frontier
+        assert!(end0 <= frontier);
+        w |= 1;
+    } else {
+        // nothing below the frontier is kept, nothing at or above it is dropped, bytes keep their stream position
+        assert!(b.offset >= frontier && b.offset >= offset0);
+        assert!(b.offset == frontier.max(offset0));
+        assert!(b.offset + n as u64 == end0);
+        let skip = (b.offset - offset0) as usize;
+        assert!(b.bytes[0] == DEFRAG_DATA[skip]);
+        assert!(b.bytes[n - 1] == DEFRAG_DATA[len - 1]);
+        w |= if skip > 0 { 2 } else { 4 };
+        if b.defragmented {
+            assert!(b.allocation_size == n);
+        }
+    }
+    core::mem::forget(b);
+    w
+}
